@@ -329,7 +329,9 @@ def r2(text, arg, what):
 def r17(text, arg, what):
     """allocation sites -> wrappers with the C13 allowance as precondition (bodies are the std calls).
     arg: spec expression for the number of reply bytes in scope (ghost), default 0"""
-    recv = arg if arg else '0int'
+    recv, _, elem = (arg or '').partition(';')
+    recv = recv if recv else '0int'
+    fish = f'::<{elem}>' if elem else ''
     total = 0
     m = rp.mask(text)
     pos = 0
@@ -343,7 +345,7 @@ def r17(text, arg, what):
         inner = text[op + 1:cl]
         if mm.group(1):
             fn = 'verif_vec_with_capacity' if mm.group(1) == 'Vec' else 'verif_hashmap_with_capacity'
-            new = f'{fn}({inner}, Ghost(({recv}) as int))'
+            new = f'{fn}{fish if fn == "verif_vec_with_capacity" else ""}({inner}, Ghost(({recv}) as int))'
         else:
             parts = rp.split_top(inner, ';')
             if len(parts) != 2:
